@@ -129,11 +129,67 @@ def L_append(ty, t, x):
     return L_mk(ty, n + 1, z3.Store(L_arr(ty, t), n, x))
 
 
+def literal_elems(ty, t):
+    """[e0, .., ek-1] if t is a list literal (mk with a numeral length over a store chain), else None"""
+    if not _is_mk(t):
+        return None
+    n = t.arg(0)
+    if not z3.is_int_value(n):
+        return None
+    k = n.as_long()
+    elems = [None] * k
+    a = t.arg(1)
+    while z3.is_app(a) and a.decl().kind() == z3.Z3_OP_STORE:
+        i = a.arg(1)
+        if not z3.is_int_value(i):
+            return None
+        if 0 <= i.as_long() < k and elems[i.as_long()] is None:
+            elems[i.as_long()] = a.arg(2)
+        a = a.arg(0)
+    if any(e is None for e in elems):
+        return None
+    return elems
+
+
 def L_has(ty, t, x, upto=None):
     """x occurs among the first `upto` elements (default: all) of the list."""
+    if upto is None:
+        lit = literal_elems(ty, t)
+        if lit is not None:
+            return z3.Or(*[e == x for e in lit]) if lit else z3.BoolVal(False)
+    if upto is None:
+        return mem_fn(ty)(t, x)        # `x in list` as a predicate (definition: mem_axioms)
     j = z3.Int('j!has')
-    n = L_len(ty, t) if upto is None else upto
-    return z3.Exists([j], z3.And(j >= 0, j < n, L_get(ty, t, j) == x))
+    return z3.Exists([j], z3.And(j >= 0, j < upto, L_get(ty, t, j) == x))
+
+
+_mem_fns = {}
+
+
+def mem_fn(ty):
+    from .types import _name
+    k = _name(ty)
+    if k not in _mem_fns:
+        _mem_fns[k] = (z3.Function('mem_' + k, sort_of(ty), sort_of(ty.elem), z3.BoolSort()),
+                       z3.Function('wit_' + k, sort_of(ty), sort_of(ty.elem), z3.IntSort()), ty)
+    return _mem_fns[k][0]
+
+
+def mem_axioms():
+    """definition of the membership predicates in use: x in l  <=>  l[wit(l,x)] == x for a position
+    wit(l,x) in range.  The first axiom fires only on an existing membership atom (no term-creating
+    loop with the second)."""
+    out = []
+    for k, (mem, wit, ty) in _mem_fns.items():
+        l = z3.Const('l!mem' + k, sort_of(ty))
+        x = z3.Const('x!mem' + k, sort_of(ty.elem))
+        j = z3.Int('j!mem' + k)
+        out.append(z3.ForAll([l, j], z3.Implies(z3.And(j >= 0, j < L_len(ty, l)), mem(l, L_get(ty, l, j))),
+                             patterns=[mem(l, L_get(ty, l, j))]))
+        out.append(z3.ForAll([l, x], z3.Implies(mem(l, x), z3.And(wit(l, x) >= 0, wit(l, x) < L_len(ty, l),
+                                                                L_get(ty, l, wit(l, x)) == x)),
+                             patterns=[mem(l, x)]))
+    return out
 
 
 _index_ufs = {}
@@ -142,6 +198,12 @@ _index_ufs = {}
 def L_index(ty, t, x):
     """list.index(x) as a deterministic term (first position of x); meaningful when x occurs"""
     from .types import _name
+    lit = literal_elems(ty, t)
+    if lit:
+        r = z3.IntVal(len(lit) - 1)
+        for i in range(len(lit) - 2, -1, -1):
+            r = z3.If(lit[i] == x, z3.IntVal(i), r)
+        return r             # first position among the literal's elements (meaningful when x occurs)
     k = _name(ty)
     if k not in _index_ufs:
         _index_ufs[k] = z3.Function('list_index_' + k, sort_of(ty), sort_of(ty.elem), z3.IntSort())
@@ -151,6 +213,8 @@ def L_index(ty, t, x):
 def L_index_facts(ty, t, x):
     """facts defining L_index(ty, t, x), valid when x occurs in the list"""
     r = L_index(ty, t, x)
+    if literal_elems(ty, t):
+        return []            # computed, no defining facts needed
     j = z3.Int('j!idx')
     return [z3.And(r >= 0, r < L_len(ty, t), L_get(ty, t, r) == x),
             z3.ForAll([j], z3.Implies(z3.And(j >= 0, j < r), L_get(ty, t, j) != x), patterns=[L_get(ty, t, j)])]
